@@ -32,4 +32,17 @@ ClMut(r) ==
              /\ (e.err # "" => r.steps[j].err \in {e.err} \cup (IF e.err = "IndexError" THEN {"TypeError"} ELSE {}))>>,
      <<"parameters-and-type-kept", \A j \in DOMAIN r.steps : r.steps[j].meta_ok>> >>
 
+\* a sub-collection obtained by indexing a list-backed collection is an independent list: mutating it leaves the parent as it was,
+\* and mutating the parent leaves it as it was (r.who = "sub" / "parent" says which one received the mutation r.o)
+ClAlias(r) ==
+  LET sel == Select(Len(r.init), r.ix)
+      sub0 == Take(r.init, sel.pos)
+      e == Effect(IF r.who = "sub" THEN sub0 ELSE r.init, r.o)
+  IN
+  << <<"selection-is-a-collection", sel.res = "coll" /\ r.ok>>,
+     <<"mutated-object-follows-list-semantics", (sel.res = "coll" /\ r.ok) =>
+          (IF r.who = "sub" THEN r.sub_after ELSE r.parent_after) = e.lst /\ (e.err = "") = (r.err = "")>>,
+     <<"other-object-unchanged", (sel.res = "coll" /\ r.ok) =>
+          (IF r.who = "sub" THEN r.parent_after = r.init ELSE r.sub_after = sub0)>> >>
+
 =============================================================================
